@@ -293,7 +293,7 @@ package astits
 //@ func parsePacket
 //@   opt sweep:C03
 //@   requires itOK(i) && i.offset == 0 && len(i.bs) >= 188
-//@   modifies i.offset
+//@   modifies i.offset, calls(s)
 //@   let N = len(i.bs)
 //@   let h0 = old(i.bs[len(i.bs) - 187])
 //@   let h1 = old(i.bs[len(i.bs) - 186])
@@ -305,6 +305,8 @@ package astits
 //@   ensures [C11,C08] sync: old(i.bs[0]) != 0x47 ==> p == nil && err == ErrPacketMustStartWithASyncByte
 //@   ensures [C11,C16,C19] fresh: err == nil ==> p != nil && fresh(p)
 //@   ensures [C19] skipped: err == errSkippedPacket ==> p == nil
+//@   ensures [C19] consulted: s != nil && (err == nil || err == errSkippedPacket) ==> calls(s) == old(calls(s)) + 1
+//@   ensures [C19] atmostonce: calls(s) == old(calls(s)) || calls(s) == old(calls(s)) + 1
 //@   ensures [C11,C08] pid: err == nil ==> p.Header.PID == u16(h0 & 0x1f) << 8 | u16(h1)
 //@   ensures [C11,C08] hdrflags: err == nil ==> p.Header.TransportErrorIndicator == bit(h0, 0x80) && p.Header.PayloadUnitStartIndicator == bit(h0, 0x40) && p.Header.TransportPriority == bit(h0, 0x20)
 //@   ensures [C11,C08] hdrctl: err == nil ==> p.Header.TransportScramblingControl == h2 >> 6 && p.Header.HasAdaptationField == hasAF && p.Header.HasPayload == hasPL && p.Header.ContinuityCounter == h2 & 0x0f
@@ -907,7 +909,11 @@ package astits
 
 //@ func isSameAsPrevious
 //@   requires p != nil && 0 <= len(ps) && (len(ps) > 0 ==> ps[len(ps) - 1] != nil)
-//@   ensures [C06,C07,C02] same: result == (len(ps) > 0 && p.Header.HasPayload && p.Header.ContinuityCounter == ps[len(ps) - 1].Header.ContinuityCounter)
+//@   ensures [C06,C07,C02] same: result == (len(ps) > 0 && p.Header.HasPayload && p.Header.ContinuityCounter == ps[len(ps) - 1].Header.ContinuityCounter && sameBytes(p.Payload, ps[len(ps) - 1].Payload))
+
+// bytes.Equal (assumed, per its documentation): true exactly when both slices have the same length and bytes.
+//@ extern bytes.Equal
+//@   ensures doc: result == sameBytes(a, b)
 
 // isPSIComplete is specified only as far as add needs it (it allocates nothing the caller
 // can see and changes no packet); its result is left uninterpreted here.
@@ -919,7 +925,7 @@ package astits
 //@   modifies b.q
 //@   let n = old(len(b.q))
 //@   let last = old(b.q[len(b.q) - 1])
-//@   let dup = n > 0 && p.Header.HasPayload && p.Header.ContinuityCounter == last.Header.ContinuityCounter
+//@   let dup = n > 0 && p.Header.HasPayload && p.Header.ContinuityCounter == last.Header.ContinuityCounter && sameBytes(p.Payload, last.Payload)
 //@   let discInd = p.Header.HasAdaptationField && p.AdaptationField.DiscontinuityIndicator
 //@   let gap = n > 0 && ((p.Header.HasPayload && p.Header.ContinuityCounter != (last.Header.ContinuityCounter + 1) % 16) || (!p.Header.HasPayload && p.Header.ContinuityCounter != last.Header.ContinuityCounter))
 //@   let psiPID = b.programMap != nil && (b.pid == 0 || has(b.programMap.p, u32(b.pid)))
@@ -929,6 +935,7 @@ package astits
 //@   ensures [C06,C02] flushlen: !dup && p.Header.PayloadUnitStartIndicator && !psiPID ==> len(b.q) == 1 && fresh(b.q)
 //@   ensures [C06,C02] extendlen: !dup && !discInd && !gap && !p.Header.PayloadUnitStartIndicator && !psiPID ==> len(ps) == 0 && len(b.q) == n + 1
 //@   ensures [C06] gapreset: !dup && (discInd || gap) && !p.Header.PayloadUnitStartIndicator && !psiPID ==> len(ps) == 0 && len(b.q) == 1
+//@   ensures [C06] gapdrop: n > 0 && p.Header.HasPayload && p.Header.ContinuityCounter != last.Header.ContinuityCounter && gap && !p.Header.PayloadUnitStartIndicator && !psiPID ==> len(b.q) == 0
 //@   ensures [C06] gapstart: !dup && (discInd || gap) && p.Header.PayloadUnitStartIndicator && !psiPID ==> len(ps) == 0 && len(b.q) == 1
 //@   opt noframe
 
@@ -941,3 +948,44 @@ package astits
 //@   opt noframe
 //@   ensures [C06,C07] tei: p.Header.TransportErrorIndicator ==> len(ps) == 0
 //@   ensures [C06,C07] nopayload: !p.Header.HasPayload ==> len(ps) == 0
+
+// ---------------------------------------------------------------------------
+// demuxer.go / packet_buffer.go
+
+//@ func newPacketPool
+//@   ensures [C20,C07] new: result != nil && fresh(result) && result.programMap == programMap && result.b != nil && fresh(result.b) && len(result.b) == 0
+
+// io.Seeker (assumed, per its documentation): seeking to offset 0 from the start reports 0.
+//@ extern (io.Seeker).Seek
+//@   ensures doc: result1 == nil && offset == 0 && whence == 0 ==> result0 == 0
+
+//@ func rewind
+//@   ensures [C20,C08] notseekable: err == nil ==> n == 0 || n == -1
+
+//@ func (*Demuxer).Rewind
+//@   requires dmx != nil
+//@   modifies dmx.dataBuffer, dmx.packetBuffer, dmx.packetPool
+//@   ensures [C20] clean: len(dmx.dataBuffer) == 0 && dmx.packetBuffer == nil && dmx.packetPool != nil && fresh(dmx.packetPool) && len(dmx.packetPool.b) == 0
+//@   ensures [C20] samemap: dmx.packetPool.programMap == old(dmx.programMap) && dmx.programMap == old(dmx.programMap)
+//@   ensures [C20] offset: err == nil ==> n == 0 || n == -1
+
+// A PacketSkipper is user code: assumed not to panic and not to touch library state.
+//@ extern type:astits.PacketSkipper
+
+// ---------------------------------------------------------------------------
+// muxer.go
+
+// WriteTables is not verified yet: its frame is assumed (it touches the table state, the
+// counters and versions, the internal buffers and the output, never the retransmit counter,
+// the stream list or the elementary-stream contexts).
+//@ extern (*Muxer).WriteTables
+//@   modifies m.pmUpdated, m.pmtUpdated, all(m.patVersion), all(m.pmtVersion), all(m.patCC), all(m.pmtCC), sinkN(m.w), sinkData(m.w), sinkFails(m.w)
+
+//@ func (*Muxer).retransmitTables
+//@   requires m != nil
+//@   modifies m.tablesRetransmitCounter, m.pmUpdated, m.pmtUpdated, all(m.patVersion), all(m.pmtVersion), all(m.patCC), all(m.pmtCC), sinkN(m.w), sinkData(m.w), sinkFails(m.w)
+//@   let c0 = old(m.tablesRetransmitCounter)
+//@   let due = force || c0 + 1 >= m.tablesRetransmitPeriod
+//@   ensures [C17] notdue: !due ==> result0 == 0 && result1 == nil && m.tablesRetransmitCounter == c0 + 1 && sinkN(m.w) == old(sinkN(m.w))
+//@   ensures [C17] reset: due && result1 == nil ==> m.tablesRetransmitCounter == 0
+//@   ensures [C17,C05] failed: due && result1 != nil ==> m.tablesRetransmitCounter == c0 + 1
